@@ -914,7 +914,8 @@ __ywd_diff(dt_ywd_t d1, dt_ywd_t d2)
 		tgtw--;
 		tgtd += GREG_DAYS_P_WEEK;
 	}
-	if (tgtw < 0) {
+	while (tgtw < 0) {
+		/* can happen twice when D1 is in week 53 */
 		tgty--;
 		tgtw += __get_isowk(d1.y + tgty);
 	}
